@@ -344,6 +344,22 @@ def step (s : St) (line : String) : St × String :=
       -- not recorded in `ops` (no CRASH re-run over histories with this entry point)
       ({ s with sys := { s.sys with w := r.1 } }, s!"{showCompact r.2} calls={r.1.calls}")
     | _, _, _, _, _, _, _ => (s, "bad-op")
+  | ["CNEEDS", ms] =>
+    match ms.toNat? with
+    | some maxSegs =>
+      let r := needsCompaction (oracleOf s.faults) maxSegs s.sys.w
+      let o := match r.2 with
+        | some b => b01 b
+        | none => "err"
+      ({ s with sys := { s.sys with w := r.1 } }, s!"{o} calls={r.1.calls}")
+    | none => (s, "bad-op")
+  | ["CIFNEEDEDQ", a, b, c, d, d2, ms, e] =>
+    match a.toNat?, b.toNat?, c.toNat?, d.toNat?, d2.toNat?, ms.toNat?, e.toNat? with
+    | some target, some mn, some mx, some now, some ttl, some maxSegs, some sz =>
+      let cfg : CompactCfg := { target := target, minSegs := mn, maxPer := mx, now := now, ttlMs := ttl }
+      let r := compactIfNeeded (oracleOf s.faults) cfg maxSegs sz s.sys.w
+      ({ s with sys := { s.sys with w := r.1 } }, s!"calls={r.1.calls}")
+    | _, _, _, _, _, _, _ => (s, "bad-op")
   | ["INTERLEAVE", a, b, c, d, d2, e, f] =>
     match a.toNat?, b.toNat?, c.toNat?, d.toNat?, d2.toNat?, e.toNat?, f.toNat? with
     | some target, some mn, some mx, some now, some ttl, some szc, some szf =>
